@@ -68,8 +68,17 @@ type Parser = parser.Parser
 
 type Scanner = scanner.Scanner
 
+// readJournalFile reads a journal file. Device files are refused: reading
+// /dev/zero and the like never ends.
+func readJournalFile(file string) ([]byte, error) {
+	if info, err := os.Stat(file); err == nil && info.Mode()&os.ModeDevice != 0 {
+		return nil, fmt.Errorf("%s is a device, not a journal file", file)
+	}
+	return os.ReadFile(file)
+}
+
 func ParseFile(file string) (directives.File, error) {
-	text, err := os.ReadFile(file)
+	text, err := readJournalFile(file)
 	if err != nil {
 		return directives.File{}, err
 	}
@@ -135,7 +144,7 @@ func parseRec(ctx context.Context, wg *errgroup.Group, resCh chan<- directives.F
 		}
 	}
 	ancestors = append(ancestors[:len(ancestors):len(ancestors)], file)
-	text, err := os.ReadFile(file)
+	text, err := readJournalFile(file)
 	if err != nil {
 		return directives.File{}, err
 	}
